@@ -55,7 +55,7 @@ func init() {
 			"(node-path) a failing task's error always leaves resolveInterruptCompletedTasks wrapped with the node key, and is never dropped; " +
 			"(forwarder-panic) a panic in a stream forwarder is delivered as an error item with a blocking send; (fresh-error) internalError objects, which are mutated in place on the way up, are never package-level; " +
 			"(cause-set) every internalError literal sets its cause; (sentinel) the step-limit exit returns ErrExceedMaxSteps as the cause.",
-		decided: []string{"unwrap", "percent-w", "go-recover", "recover-handler-no-close", "eof-identity", "forwarder-panic", "fresh-error", "node-path", "cause-set", "sentinel"},
+		decided: []string{"unwrap", "percent-w", "go-recover", "recover-handler-no-close", "eof-identity", "forwarder-panic", "fresh-error", "node-path", "cause-set", "sentinel", "no-dropped-error", "wrap-keeps-outer"},
 		notDecided: []string{"message text and exact nesting depth of node paths", "panics on the run-loop goroutine itself (edge handlers, inline first tool call) — see REFLECT-ZERO rules under C14/C15/C16",
 			"that user-supplied callbacks do not swallow errors"},
 		run: runC13,
@@ -178,13 +178,16 @@ func runC13(w *World, r *Report) {
 	eofIdentityCheck(w, r, "C13.eof-identity", "compose", "schema", "flow", "internal", "components", "callbacks", "utils")
 
 	// errors of the framework's own run-path functions are never discarded
-	r.Rule("C13.no-dropped-error", "on the run path of package compose, the error result of a call to a module function is tested, returned or stored — never discarded", 60)
+	r.Rule("C13.no-dropped-error", "on the run path of package compose and in schema / internal / flow/agent / callbacks, the error result of a call to a module function is tested, returned or stored — never discarded", 60)
 	{
 		errT := types.Universe.Lookup("error").Type()
 		n := 0
-		for _, fn := range w.RepoFuncs("compose") {
-			if !(reach[fn] || reach[topFunc(fn)]) {
+		for _, fn := range w.RepoFuncs("compose", "schema", "internal", "flow/agent", "callbacks") {
+			if w.relPkg(fnPkg(fn).Path()) == "compose" && !(reach[fn] || reach[topFunc(fn)]) {
 				continue
+			}
+			if strings.HasPrefix(topFunc(fn).Name(), "init") {
+				continue // package initialisers (registration of the built-in types): not part of any run
 			}
 			seen := map[string]int{}
 			instrs(fn, func(in ssa.Instruction) {
